@@ -1,9 +1,449 @@
-//! group `snapshot` — stub (not built yet).
+//! group `snapshot` (C32) — generation-marker stress of `Server::{catalog,set_catalog,tsig_keys,
+//! set_tsig_keys}` + `handle_message` with real OS threads.
+//!
+//! Catalog generation `g` serves one zone `gen.test.` in which *every* record has TTL `1000 + g`
+//! (and A addresses, the MX preference and the SOA serial repeat `g`), so each answer, authority
+//! and additional record of a response names the catalog it came from.  Key-set generation `g`
+//! holds the key `key.test.` whose secret encodes `g`: a request signed with the secret of
+//! generation `j` is accepted iff the key set the server consulted is generation `j`.
+//!
+//! Swapper threads install generations 1, 2, … (publishing `started` before and `done` after each
+//! call through SeqCst atomics); query threads read `done` before and `started` after each
+//! `handle_message` call.  The window `lo..hi` they record is therefore a superset of the
+//! generations that can have been current while the request was handled (happens-before through
+//! the atomics), and `lo` is a generation whose replacement had *returned* before the request
+//! started.  Pacing is by operation counts, never by wall-clock time.
+//!
+//! case lines (see lean/QV/Driver/Snapshot.lean):
+//!   snapobs <lo> <hi> <klo> <khi> <nrec> <j|-> <markers|-> <sig>      one observed response
+//!   snapseq <step;…>                                                  sequential history
 #![allow(unused)]
 use crate::common::*;
+use std::net::{IpAddr, Ipv4Addr};
+use std::sync::atomic::{AtomicBool, AtomicUsize, Ordering::SeqCst};
+use std::sync::Arc;
+use std::time::SystemTime;
 
-pub fn run(_op: &str, _a: &[&str]) -> Option<String> {
-    None
+use quandary::class::Class;
+use quandary::db::catalog::Entry;
+use quandary::db::zone::GluePolicy;
+use quandary::db::{HashMapTreeCatalog, HashMapTreeZone};
+use quandary::message::tsig::{Algorithm, PreparedTsigRr};
+use quandary::message::writer::TsigMode;
+use quandary::message::{ExtendedRcode, Qclass, Qtype, Question, Rcode, Reader, Writer};
+use quandary::name::{LowercaseName, Name};
+use quandary::rr::rdata::TimeSigned;
+use quandary::rr::{Rdata, Ttl, Type};
+use quandary::server::{ReceivedInfo, Response, Server, Transport, TsigKeyMap};
+
+pub(crate) type Cat = HashMapTreeCatalog<HashMapTreeZone, ()>;
+
+const TTL_BASE: u32 = 1000;
+
+fn name(s: &str) -> Box<Name> {
+    s.parse().unwrap()
 }
 
-pub fn gen(_rng: &mut Rng, _thorough: bool, _em: &mut Emitter) {}
+fn rd(b: &[u8]) -> &Rdata {
+    <&Rdata>::try_from(b).unwrap()
+}
+
+pub(crate) fn make_catalog(g: usize) -> Cat {
+    let ttl = Ttl::from(TTL_BASE + g as u32);
+    let gh = (g >> 8) as u8;
+    let gl = g as u8;
+    let apex = name("gen.test.");
+    let mut z = HashMapTreeZone::new(apex.clone(), Class::IN, GluePolicy::Narrow);
+    // SOA: mname ".", rname ".", serial g, refresh/retry/expire 1, minimum = ttl (so the
+    // negative-caching TTL min(ttl, minimum) is the marker too)
+    let mut soa = vec![0u8, 0u8];
+    soa.extend_from_slice(&(g as u32).to_be_bytes());
+    for _ in 0..3 {
+        soa.extend_from_slice(&1u32.to_be_bytes());
+    }
+    soa.extend_from_slice(&(TTL_BASE + g as u32).to_be_bytes());
+    z.add(&apex, Type::SOA, Class::IN, ttl, rd(&soa)).unwrap();
+    let mail = name("mail.gen.test.");
+    let mut mx = (g as u16).to_be_bytes().to_vec();
+    mx.extend_from_slice(mail.wire_repr());
+    z.add(&apex, Type::MX, Class::IN, ttl, rd(&mx)).unwrap();
+    z.add(&mail, Type::A, Class::IN, ttl, rd(&[10, 1, gh, gl])).unwrap();
+    let target = name("x.sub.gen.test.");
+    z.add(&name("alias.gen.test."), Type::CNAME, Class::IN, ttl, rd(target.wire_repr()))
+        .unwrap();
+    let ns = name("ns.sub.gen.test.");
+    z.add(&name("sub.gen.test."), Type::NS, Class::IN, ttl, rd(ns.wire_repr()))
+        .unwrap();
+    z.add(&ns, Type::A, Class::IN, ttl, rd(&[10, 2, gh, gl])).unwrap();
+    let mut c = Cat::new();
+    c.insert(Entry::Loaded(Arc::new(z), ()));
+    c
+}
+
+fn secret(g: usize) -> Box<[u8]> {
+    let mut v = Vec::with_capacity(32);
+    for i in 0..4u64 {
+        v.extend_from_slice(&((g as u64).wrapping_mul(0x9E37_79B9_7F4A_7C15) ^ i).to_be_bytes());
+    }
+    v.into_boxed_slice()
+}
+
+fn make_keys(g: usize) -> TsigKeyMap {
+    let mut m = TsigKeyMap::new();
+    m.insert(name("key.test."), (Algorithm::HmacSha256, secret(g)));
+    m
+}
+
+/// query kinds; the number of marked records each yields is calibrated on generation 0
+const KINDS: [(&str, Type); 4] = [
+    ("gen.test.", Type::MX),        // answer MX + additional A
+    ("alias.gen.test.", Type::A),   // answer CNAME + authority NS + additional glue A
+    ("nx.gen.test.", Type::A),      // authority SOA (NXDOMAIN)
+    ("x.sub.gen.test.", Type::A),   // authority NS + additional glue A (referral)
+];
+
+fn build_query(kind: usize, id: u16, signed_with: Option<usize>, buf: &mut [u8]) -> usize {
+    let mut w = Writer::new(buf, 65535).unwrap();
+    w.set_id(id);
+    let q = Question {
+        qname: name(KINDS[kind].0),
+        qtype: Qtype::from(KINDS[kind].1),
+        qclass: Qclass::from(Class::IN),
+    };
+    w.add_question(&q).unwrap();
+    if let Some(j) = signed_with {
+        let now: TimeSigned = SystemTime::now().try_into().unwrap();
+        let key_name: Box<LowercaseName> = "key.test.".parse().unwrap();
+        w.set_tsig(
+            TsigMode::Request {
+                algorithm: Algorithm::HmacSha256,
+                key: secret(j),
+            },
+            PreparedTsigRr {
+                key_name,
+                time_signed: now,
+                fudge: 300,
+                original_id: id,
+                error: ExtendedRcode::NOERROR,
+                server_time: now,
+            },
+        )
+        .unwrap();
+    }
+    w.finish()
+}
+
+/// markers of all answer/authority/additional records (TTL − 1000; an RDATA marker that disagrees
+/// with the TTL marker is reported as an extra marker), and the MAC verdict for signed requests
+fn observe(resp: &[u8], signed: bool) -> Result<(Vec<usize>, Option<bool>), String> {
+    let mut r = Reader::try_from(resp).map_err(|_| "short".to_string())?;
+    let rcode = r.rcode();
+    let n = r.ancount() as usize + r.nscount() as usize + r.arcount() as usize;
+    for _ in 0..r.qdcount() {
+        r.skip_question().map_err(|_| "question".to_string())?;
+    }
+    let mut markers = Vec::new();
+    let mut saw_tsig = false;
+    for _ in 0..n {
+        let rr = r.read_rr().map_err(|_| "rr".to_string())?;
+        if rr.rr_type == Type::TSIG {
+            saw_tsig = true;
+            continue;
+        }
+        if rr.rr_type == Type::OPT {
+            continue;
+        }
+        let t = u32::from(rr.ttl);
+        if t < TTL_BASE {
+            return Err(format!("ttl {t}"));
+        }
+        let m = (t - TTL_BASE) as usize;
+        markers.push(m);
+        let rdata: &[u8] = rr.rdata.as_ref().as_ref();
+        let rm = if rr.rr_type == Type::A && rdata.len() == 4 {
+            Some(((rdata[2] as usize) << 8) | rdata[3] as usize)
+        } else if rr.rr_type == Type::MX && rdata.len() >= 2 {
+            Some(((rdata[0] as usize) << 8) | rdata[1] as usize)
+        } else if rr.rr_type == Type::SOA && rdata.len() >= 22 {
+            let o = rdata.len() - 20;
+            Some(u32::from_be_bytes([rdata[o], rdata[o + 1], rdata[o + 2], rdata[o + 3]]) as usize)
+        } else {
+            None
+        };
+        if let Some(rm) = rm {
+            if rm != (m & 0xffff) && rm != m {
+                markers.push(rm);
+            }
+        }
+    }
+    let sig = if signed {
+        if !saw_tsig {
+            None
+        } else {
+            Some(rcode != Rcode::NOTAUTH)
+        }
+    } else if saw_tsig {
+        Some(true)
+    } else {
+        None
+    };
+    Ok((markers, sig))
+}
+
+fn handle(server: &Server<Cat>, req: &[u8], out: &mut [u8]) -> Option<usize> {
+    let info = ReceivedInfo::new(IpAddr::V4(Ipv4Addr::new(127, 0, 0, 1)), Transport::Tcp);
+    match server.handle_message(req, info, out) {
+        Response::Single(n) => Some(n),
+        Response::None => None,
+    }
+}
+
+fn fmt_markers(m: &[usize]) -> String {
+    if m.is_empty() {
+        "-".to_string()
+    } else {
+        m.iter().map(|x| x.to_string()).collect::<Vec<_>>().join(",")
+    }
+}
+
+fn fmt_sig(s: Option<bool>) -> &'static str {
+    match s {
+        None => "-",
+        Some(true) => "1",
+        Some(false) => "0",
+    }
+}
+
+fn calibrate() -> [usize; 4] {
+    let server = Server::new(Arc::new(make_catalog(0)));
+    let mut out = vec![0u8; 65535];
+    let mut req = vec![0u8; 1024];
+    let mut n = [0usize; 4];
+    for k in 0..4 {
+        let len = build_query(k, 1, None, &mut req);
+        let rl = handle(&server, &req[..len], &mut out).expect("calibration: no response");
+        let (m, _) = observe(&out[..rl], false).expect("calibration: unreadable response");
+        assert!(!m.is_empty() && m.iter().all(|x| *x == 0), "calibration kind {k}: {m:?}");
+        n[k] = m.len();
+    }
+    n
+}
+
+struct Shared {
+    server: Server<Cat>,
+    cat_started: AtomicUsize,
+    cat_done: AtomicUsize,
+    key_started: AtomicUsize,
+    key_done: AtomicUsize,
+    queries: AtomicUsize,
+    live_query_threads: AtomicUsize,
+}
+
+/// one observation of thread-local code: returns the case line
+fn one_query(sh: &Shared, rng: &mut Rng, nrec: &[usize; 4], req: &mut [u8], out: &mut [u8]) -> String {
+    let kind = rng.below(4);
+    let lo = sh.cat_done.load(SeqCst);
+    let klo = sh.key_done.load(SeqCst);
+    let signed_with = if rng.chance(1, 2) {
+        // sign with a generation at or near the edge of the current window
+        let ks = sh.key_started.load(SeqCst);
+        Some(match rng.below(4) {
+            0 => klo,
+            1 => ks,
+            2 => ks + 1,
+            _ => klo.saturating_sub(1),
+        })
+    } else {
+        None
+    };
+    let id = rng.next() as u16;
+    let len = build_query(kind, id, signed_with, req);
+    let res = handle(&sh.server, &req[..len], out);
+    let hi = sh.cat_started.load(SeqCst);
+    let khi = sh.key_started.load(SeqCst);
+    sh.queries.fetch_add(1, SeqCst);
+    let (markers, sig) = match res {
+        Some(n) => match observe(&out[..n], signed_with.is_some()) {
+            Ok(x) => x,
+            Err(e) => (vec![999_999_999], None), // unreadable response: reported as a foreign marker
+        },
+        None => (vec![999_999_998], None),
+    };
+    format!(
+        "snapobs {} {} {} {} {} {} {} {}",
+        lo,
+        hi,
+        klo,
+        khi,
+        nrec[kind],
+        signed_with.map(|j| j.to_string()).unwrap_or_else(|| "-".to_string()),
+        fmt_markers(&markers),
+        fmt_sig(sig)
+    )
+}
+
+fn round(seed: u64, n_threads: usize, per_thread: usize, cat_stride: usize, key_stride: usize, nrec: [usize; 4]) -> Vec<String> {
+    let sh = Arc::new(Shared {
+        server: Server::new(Arc::new(make_catalog(0))),
+        cat_started: AtomicUsize::new(0),
+        cat_done: AtomicUsize::new(0),
+        key_started: AtomicUsize::new(0),
+        key_done: AtomicUsize::new(0),
+        queries: AtomicUsize::new(0),
+        live_query_threads: AtomicUsize::new(n_threads),
+    });
+    sh.server.set_tsig_keys(Arc::new(make_keys(0)));
+    let mut handles = Vec::new();
+    for t in 0..n_threads {
+        let sh = sh.clone();
+        handles.push(std::thread::spawn(move || {
+            let mut rng = Rng::new(seed ^ (0x1000 + t as u64));
+            let mut req = vec![0u8; 1024];
+            let mut out = vec![0u8; 65535];
+            let mut lines = Vec::with_capacity(per_thread);
+            for _ in 0..per_thread {
+                lines.push(one_query(&sh, &mut rng, &nrec, &mut req, &mut out));
+            }
+            sh.live_query_threads.fetch_sub(1, SeqCst);
+            lines
+        }));
+    }
+    // catalog swapper: generation g is installed once g * stride queries have completed
+    let swap = |is_cat: bool, stride: usize, sh: Arc<Shared>, seed: u64| {
+        std::thread::spawn(move || {
+            let mut rng = Rng::new(seed);
+            let mut req = vec![0u8; 1024];
+            let mut out = vec![0u8; 65535];
+            let mut lines = Vec::new();
+            let mut g = 0usize;
+            loop {
+                while sh.queries.load(SeqCst) < (g + 1) * stride {
+                    if sh.live_query_threads.load(SeqCst) == 0 {
+                        return lines;
+                    }
+                    std::thread::yield_now();
+                }
+                g += 1;
+                if is_cat {
+                    let c = Arc::new(make_catalog(g));
+                    sh.cat_started.store(g, SeqCst);
+                    sh.server.set_catalog(c);
+                    sh.cat_done.store(g, SeqCst);
+                } else {
+                    let k = Arc::new(make_keys(g));
+                    sh.key_started.store(g, SeqCst);
+                    sh.server.set_tsig_keys(k);
+                    sh.key_done.store(g, SeqCst);
+                }
+                // the swapper's own request right after the replacement returned: for the cell it
+                // owns the window is the single generation g
+                if rng.chance(1, 4) {
+                    lines.push(one_query(&sh, &mut rng, &nrec, &mut req, &mut out));
+                }
+            }
+        })
+    };
+    let s1 = swap(true, cat_stride, sh.clone(), seed ^ 0xCA7);
+    let s2 = swap(false, key_stride, sh.clone(), seed ^ 0x4E7);
+    let mut all = Vec::new();
+    for h in handles {
+        all.extend(h.join().expect("query thread panicked"));
+    }
+    all.extend(s1.join().expect("catalog swapper panicked"));
+    all.extend(s2.join().expect("key swapper panicked"));
+    all
+}
+
+fn run_seq(steps: &str) -> String {
+    let nrec_ok = |n: usize| n <= 3;
+    let server = Server::new(Arc::new(make_catalog(0)));
+    server.set_tsig_keys(Arc::new(make_keys(0)));
+    let cal = calibrate();
+    let mut req = vec![0u8; 1024];
+    let mut out = vec![0u8; 65535];
+    let mut res = Vec::new();
+    for st in steps.split(';') {
+        let (c, rest) = st.split_at(1);
+        match c {
+            "c" => server.set_catalog(Arc::new(make_catalog(rest.parse().ok().unwrap_or(0)))),
+            "k" => server.set_tsig_keys(Arc::new(make_keys(rest.parse().ok().unwrap_or(0)))),
+            "q" | "t" => {
+                let (signed, nrec) = if c == "q" {
+                    (None, rest.parse::<usize>().ok())
+                } else {
+                    let mut it = rest.split(':');
+                    let j = it.next().and_then(|x| x.parse::<usize>().ok());
+                    (j, it.next().and_then(|x| x.parse::<usize>().ok()))
+                };
+                let Some(nrec) = nrec else { return "bad-op".into() };
+                let Some(kind) = (0..4).find(|k| cal[*k] == nrec) else { return "bad-op".into() };
+                let len = build_query(kind, 7, signed, &mut req);
+                match handle(&server, &req[..len], &mut out) {
+                    Some(n) => match observe(&out[..n], signed.is_some()) {
+                        Ok((m, s)) => res.push(format!("{}/{}", fmt_markers(&m), fmt_sig(s))),
+                        Err(e) => res.push(format!("unreadable:{e}")),
+                    },
+                    None => res.push("none".into()),
+                }
+            }
+            _ => return "bad-op".into(),
+        }
+    }
+    format!("ok {}", res.join(";"))
+}
+
+pub fn run(op: &str, a: &[&str]) -> Option<String> {
+    match op {
+        // an observation is an *input* recorded by the stress run; the implementation's claim
+        // about it is always "this is what I answered" = ok
+        "snapobs" => Some(if a.len() == 8 { "ok".into() } else { "bad-op".into() }),
+        "snapseq" if a.len() == 1 => {
+            let s = a[0].to_string();
+            Some(guarded(move || run_seq(&s)))
+        }
+        _ => None,
+    }
+}
+
+pub fn gen(rng: &mut Rng, thorough: bool, em: &mut Emitter) {
+    let nrec = calibrate();
+    // sequential histories
+    let n_seq = if thorough { 2000 } else { 300 };
+    for _ in 0..n_seq {
+        let mut steps = Vec::new();
+        let mut g = 0;
+        let mut k = 0;
+        for _ in 0..rng.range(1, 10) {
+            match rng.below(5) {
+                0 => {
+                    g += rng.range(1, 3);
+                    steps.push(format!("c{g}"));
+                }
+                1 => {
+                    k += rng.range(1, 3);
+                    steps.push(format!("k{k}"));
+                }
+                2 | 3 => steps.push(format!("q{}", nrec[rng.below(4)])),
+                _ => {
+                    let j = if rng.chance(2, 3) { k } else { rng.below(k + 2) };
+                    steps.push(format!("t{}:{}", j, nrec[rng.below(4)]));
+                }
+            }
+        }
+        let case = format!("snapseq {}", steps.join(";"));
+        let r = crate::run_case(&case);
+        em.emit(&case, &r);
+    }
+    // concurrent rounds
+    let rounds = if thorough { 40 } else { 8 };
+    for r in 0..rounds {
+        let n_threads = rng.range(2, 6);
+        let per_thread = if thorough { 6000 } else { 1200 };
+        let cat_stride = *rng.pick(&[1usize, 2, 3, 5, 8, 20, 50]);
+        let key_stride = *rng.pick(&[1usize, 2, 3, 7, 11, 30]);
+        let seed = rng.next();
+        for line in round(seed, n_threads, per_thread, cat_stride, key_stride, nrec) {
+            em.emit(&line, "ok");
+        }
+    }
+}
